@@ -153,3 +153,26 @@ func Harness_C25_entrypoints() {
 	}
 	cover("returned")
 }
+
+// Harness_C25_int: every integer in [-2^127, 2^127-1] round-trips; integers outside are refused.
+func Harness_C25_int() {
+	v := nondetBig("int", 129)
+	lim := new(big.Int).Lsh(big.NewInt(1), 127)
+	inRange := bigLe(new(big.Int).Neg(lim), v) && bigLt(v, lim)
+	enc, err := EncodeValue(v)
+	assert((err == nil) == inRange, "int-encodes-iff-in-i128-range")
+	if err != nil {
+		return
+	}
+	src := common.NewZeroCopySource(enc)
+	dec, err2 := DecodeValue(src)
+	assert(err2 == nil && src.Len() == 0, "int-encoding-decodes")
+	if err2 != nil {
+		return
+	}
+	y, ok := dec.(*big.Int)
+	assert(ok, "int-decodes-to-int")
+	if ok {
+		assert(bigEq(v, y), "int-roundtrip")
+	}
+}
